@@ -92,3 +92,15 @@ Lemma firstn_app_exact {A} (a b : list A) : firstn (length a) (a ++ b) = a.
 Proof. induction a; cbn; auto. now f_equal. Qed.
 Lemma skipn_app_exact {A} (a b : list A) : skipn (length a) (a ++ b) = b.
 Proof. induction a; cbn; auto. Qed.
+
+Lemma bytes_eqb_refl' a : bytes_eqb a a = true.
+Proof. now apply bytes_eqb_eq. Qed.
+
+Lemma skipn_skipn {A} (a b : nat) (l : list A) : skipn a (skipn b l) = skipn (a + b) l.
+Proof.
+  revert l; induction b as [|b IH]; intros l.
+  - now rewrite Nat.add_0_r.
+  - rewrite Nat.add_succ_r. destruct l as [|x l]; cbn [skipn].
+    + now rewrite !skipn_nil.
+    + apply IH.
+Qed.
